@@ -42,7 +42,7 @@ def jobs(tier):
 
     def add(cfg, **kw):
         jobs.append(Job(REL, cfg, pkg_key='sampler',
-                        max_paths=kw.get('max_paths', 8000)))
+                        max_paths=kw.get('max_paths', 8000), split=10))
     expl = dict(m=[1, 1], explored=True, end_exp=[1, 1], shell=0,
                 op='add_samples')
     for variant in ('vectorized', 'pool', 'verbose'):
